@@ -61,4 +61,60 @@ def balanced : List Ev → List (Option Kind) → Bool
 /-- a child span lies within its parent's span and within the file -/
 def within (lo hi : Int) (c0 c1 : Int) : Bool := lo ≤ c0 ∧ c0 ≤ c1 ∧ c1 ≤ hi
 
+mutual
+/-- every node has a span with Idx0 ≤ Idx1 and every present child's span lies within its parent's -/
+def nestedAll : T → Bool
+  | .absent => true
+  | .tnil => true
+  | .node k a b l kids =>
+    match idx0 (.node k a b l kids), idx1 (.node k a b l kids) with
+    | some p0, some p1 => decide (p0 ≤ p1) && kidsWithin p0 p1 kids
+    | _, _ => false
+def kidsWithin (p0 p1 : Int) : TS → Bool
+  | .nil => true
+  | .cons .absent ts => kidsWithin p0 p1 ts
+  | .cons .tnil ts => kidsWithin p0 p1 ts
+  | .cons (.node k a b l kids) ts =>
+    (match idx0 (.node k a b l kids), idx1 (.node k a b l kids) with
+     | some c0, some c1 => decide (p0 ≤ c0 ∧ c1 ≤ p1)
+     | _, _ => false) && nestedAll (.node k a b l kids) && kidsWithin p0 p1 ts
+end
+
+mutual
+/-- the spans of all nodes, pre-order -/
+def spans : T → List (Int × Int)
+  | .absent => []
+  | .tnil => []
+  | .node k a b l kids =>
+    (match idx0 (.node k a b l kids), idx1 (.node k a b l kids) with
+     | some p0, some p1 => [(p0, p1)]
+     | _, _ => []) ++ spansL kids
+def spansL : TS → List (Int × Int)
+  | .nil => []
+  | .cons t ts => spans t ++ spansL ts
+end
+
+/-- the spans of the children when all are present and have spans -/
+def kidSpans : TS → Option (List (Int × Int))
+  | .nil => some []
+  | .cons t ts =>
+    match idx0 t, idx1 t, kidSpans ts with
+    | some a, some b, some r => some ((a, b) :: r)
+    | _, _, _ => none
+
+/-- source order: each span is non-empty-or-empty-forward and starts after the previous one ends -/
+def chainFrom : Int → List (Int × Int) → Bool
+  | _, [] => true
+  | b, (x, y) :: r => decide (b ≤ x ∧ x ≤ y) && chainFrom y r
+
+def lastSnd : Int → List (Int × Int) → Int
+  | b, [] => b
+  | _, (_, y) :: r => lastSnd y r
+
+/-- node kinds whose span is derived from their children: Idx0 = first child's Idx0, Idx1 = last child's Idx1 -/
+def isDerived : Kind → Bool
+  | .AssignExpression | .BinaryExpression | .ConditionalExpression | .DotExpression | .SequenceExpression
+  | .ExpressionStatement | .FunctionStatement | .LabelledStatement | .Program => true
+  | _ => false
+
 end OttoVerif.C04.Spec
